@@ -94,7 +94,7 @@ CMof(rm)   == [jj \in 1..P |-> [tt \in 1..T |-> ColDot(X, rm, jj, tt)]]
 CM(ev)     == CMof(R(ev))
 
 RangeOkA(ev) ==
-  /\ \A jj \in 1..P : \A tt \in 1..T : Abs(ev.w[jj][tt]) <= (IF Kind = "ols" THEN 2 * WMAX ELSE WMAX)
+  /\ \A jj \in 1..P : \A tt \in 1..T : Abs(ev.w[jj][tt]) <= (IF Kind = "ols" THEN 4 * WMAX ELSE WMAX)
   /\ \A tt \in 1..T : Abs(ev.b[tt]) <= BMAX
   /\ \A i \in 1..N : \A tt \in 1..T : Abs(ev.yhat[i][tt]) <= BMAX /\ Abs(Y[i][tt] * S - ev.yhat[i][tt]) <= RMAX
   /\ ev.gap >= -GCAP
@@ -177,7 +177,7 @@ FitFirstFalse(ev) ==
            cm == CMof(rm)
        IN
        IF ~RangeOkB(cm) THEN "range"
-       ELSE IF OlsIcpt /\ ~SolveInRange(X, Y, Off, ev.w, ev.yhat, rm, 1, F32) THEN "offrange"
+       ELSE IF OlsIcpt /\ OffCase /\ ~SolveInRange(X, Y, Off, ev.w, ev.yhat, rm, 1, F32) THEN "offrange"
        ELSE IF OlsIcpt /\ OffCase /\ ~Resolvable(X, Y, Off, ev.w, ev.yhat, rm, 1, F32) THEN "none"
        ELSE IF OffCase THEN       \* shifted records (OLS with intercept only): shift-invariant clauses
             (IF ~OlsIcpt THEN "offkind"
@@ -193,7 +193,8 @@ FitFirstFalse(ev) ==
        ELSE IF ~GapOk(ev) THEN "gap"
        ELSE IF ~StopOk(ev, In.te) THEN "stop"
        ELSE IF ~PerturbOk(ev, rm, cm) THEN "perturb"
-       ELSE IF OlsIcpt /\ Resolvable(X, Y, Off, ev.w, ev.yhat, rm, 1, F32)
+       \* un-shifted OLS: the exact slopes are compared where the integer arithmetic of the exact solution fits 31 bits
+       ELSE IF OlsIcpt /\ SolveInRange(X, Y, Off, ev.w, ev.yhat, rm, 1, F32) /\ Resolvable(X, Y, Off, ev.w, ev.yhat, rm, 1, F32)
                     /\ ~CoefOk(X, Y, Off, ev.w, ev.yhat, rm, 1, F32) THEN "coef"
        ELSE "none"
 
